@@ -89,7 +89,7 @@ EstTotal(t) == IF est[t].known THEN est[t].total ELSE 0
 AssignSeq(targets) ==
   LET ord == SetToSortSeq({x.t : x \in targets}, <)
   IN [k \in DOMAIN ord |-> LET x == CHOOSE y \in targets : y.t = ord[k]
-                           IN [job |-> "j1", h |-> x.t, state |-> x.state, series |-> x.series, total |-> EstTotal(x.t)]]
+                           IN [job |-> "j1", h |-> x.t, state |-> x.state, series |-> x.series, total |-> x.total]]
 EndCycle ==
   /\ pc = "done"
   /\ LET n2 == IF StaticShards THEN nsh ELSE EffectiveScale
@@ -123,16 +123,19 @@ Tick ==
   /\ clock' = clock + 1
   /\ sc' = [i \in 1..MaxN |-> [sc[i] EXCEPT !.clock = clock + 1]]
   /\ UNCHANGED <<nsh, disc, size, alive, est, faults, envs, cyc, kvars>>
+\* the explorer probes a discovered target until a probe succeeds, and never again while it stays discovered;
+\* a target that leaves discovery loses its entry (a later discovery starts from nothing)
+EstUnknown == [known |-> FALSE, health |-> "unknown", series |-> 0, total |-> 0]
 Probe(t) ==
-  /\ pc = "idle" /\ t \in disc
+  /\ pc = "idle" /\ t \in disc /\ ~(est[t].known /\ est[t].health = "up")
   /\ est' = [est EXCEPT ![t] = IF alive[t] THEN [known |-> TRUE, health |-> "up", series |-> size[t].series, total |-> size[t].total]
                                           ELSE [@ EXCEPT !.known = TRUE, !.health = "down"]]
   /\ UNCHANGED <<nsh, sc, disc, size, alive, clock, faults, envs, cyc, kvars>>
-AddT(t)    == t \notin disc /\ disc' = disc \cup {t} /\ UNCHANGED <<size, alive>>
-RemoveT(t) == t \in disc /\ disc' = disc \ {t} /\ UNCHANGED <<size, alive>>
-SetSize(t, s) == s # size[t] /\ size' = [size EXCEPT ![t] = s] /\ UNCHANGED <<disc, alive>>
-SetAlive(t, b) == b # alive[t] /\ alive' = [alive EXCEPT ![t] = b] /\ UNCHANGED <<disc, size>>
-EnvFrame == pc = "idle" /\ envs < EnvBudget /\ envs' = envs + 1 /\ UNCHANGED <<nsh, sc, est, clock, faults, cyc, kvars>>
+AddT(t)    == t \notin disc /\ disc' = disc \cup {t} /\ UNCHANGED <<size, alive, est>>
+RemoveT(t) == t \in disc /\ disc' = disc \ {t} /\ est' = [est EXCEPT ![t] = EstUnknown] /\ UNCHANGED <<size, alive>>
+SetSize(t, s) == s # size[t] /\ size' = [size EXCEPT ![t] = s] /\ UNCHANGED <<disc, alive, est>>
+SetAlive(t, b) == b # alive[t] /\ alive' = [alive EXCEPT ![t] = b] /\ UNCHANGED <<disc, size, est>>
+EnvFrame == pc = "idle" /\ envs < EnvBudget /\ envs' = envs + 1 /\ UNCHANGED <<nsh, sc, clock, faults, cyc, kvars>>
 EnvChange ==
   /\ EnvFrame
   /\ \/ \E t \in Targets : AddT(t) \/ RemoveT(t) \/ SetAlive(t, ~alive[t])
@@ -154,7 +157,7 @@ RecreatePod(i) ==
 
 \* a targets update that is not from this coordinator's running cycle reaches shard i: the rest of a cycle of a
 \* coordinator that crashed between two requests, a second coordinator instance, an operator.  P: set of [t, state]
-PlaceSeq(P) == AssignSeq({[t |-> p.t, state |-> p.state, series |-> IF est[p.t].known THEN est[p.t].series ELSE 0] : p \in P})
+PlaceSeq(P) == AssignSeq({[t |-> p.t, state |-> p.state, series |-> IF est[p.t].known THEN est[p.t].series ELSE 0, total |-> EstTotal(p.t)] : p \in P})
 ForeignUpdate(i, P) ==
   /\ pc = "idle" /\ i <= nsh /\ faults < FaultBudget /\ faults' = faults + 1
   /\ sc' = [sc EXCEPT ![i] = CapTimes(S!Update(WithClock(sc[i]), PlaceSeq(P)))]
